@@ -694,6 +694,8 @@ def transc(kind, u):
         return RF({})
     if kind == 'atan' and not u.p:
         return RF({})
+    if kind == 'acos' and u.is_const() and u.cval() == 1:
+        return RF({})
     if kind == 'log' and u.is_const() and u.cval() <= 0:
         raise OutsideFragment("log of a non-positive constant")
     if kind == 'exp' and len(u.p) == 1:
@@ -706,6 +708,8 @@ def transc(kind, u):
     i = A.new("%s#%d" % (kind, len(A.names)), kind, u, key=key)
     if new and kind == 'log':
         DEFINED.append(('pos', u))
+    if new and kind == 'acos':
+        DEFINED.append(('nonneg', RF.const(1) - u * u))
     return RF.atom(i)
 
 
@@ -850,7 +854,7 @@ def atom_deps(a):
         d = frozenset((a,))
     elif k == 'rad':
         d = poly_deps(info[1])
-    elif k in ('cos', 'exp', 'log', 'atan', 'def'):
+    elif k in ('cos', 'exp', 'log', 'atan', 'def', 'acos'):
         d = poly_deps(info.p)
     elif k == 'sin':
         d = atom_deps(info)
@@ -924,6 +928,9 @@ def d_atom(a, x):
     elif k == 'atan':
         u = A.info[a]
         r = diff(u, x) / (u * u + 1)
+    elif k == 'acos':
+        u = A.info[a]
+        r = -diff(u, x) / root(RF.const(1) - u * u, 2)
     elif k == 'ind':
         r = RF({})
     elif k == 'def':
@@ -1081,7 +1088,7 @@ class Path:
 PATH = Path()
 
 
-def explore(fn, max_paths=64):
+def explore(fn, max_paths=256):
     """run fn() under every decision script; yields (taken, result)"""
     todo = [[]]
     n = 0
@@ -1135,7 +1142,7 @@ def _subs_atom(a, mapping, keys, memo):
         r = trig(substitute(info, mapping, memo))[1]
     elif k == 'sin':
         r = trig(substitute(A.info[info], mapping, memo))[0]
-    elif k in ('exp', 'log', 'atan'):
+    elif k in ('exp', 'log', 'atan', 'acos'):
         r = transc(k, substitute(info, mapping, memo))
     elif k == 'inv':
         r = substitute(RF(info), mapping, memo).inv()
@@ -1239,6 +1246,11 @@ def _eval_atom(a, env, cache, ctx):
         r = M.log(v)
     elif k == 'atan':
         r = M.atan(evalf(info, env, cache, ctx))
+    elif k == 'acos':
+        v = evalf(info, env, cache, ctx)
+        if abs(v) > 1:
+            raise Undefined("acos argument outside [-1, 1]")
+        r = M.acos(v)
     elif k == 'def':
         r = evalf(info, env, cache, ctx)
     elif k == 'inv':
@@ -1288,7 +1300,7 @@ def show_atom(a, depth=3):
         return "cos(%s)" % show(info, 4, depth - 1)
     if k == 'sin':
         return "sin(%s)" % show(A.info[info], 4, depth - 1)
-    if k in ('exp', 'log', 'atan', 'def'):
+    if k in ('exp', 'log', 'atan', 'def', 'acos'):
         return "%s(%s)" % (k, show(info, 4, depth - 1))
     if k == 'inv':
         return "inv(%s)" % show(RF(info), 4, depth - 1)
@@ -1311,3 +1323,21 @@ def show(f, maxterms=8, depth=2):
         cs = str(c)
         parts.append(cs + ("*" + s if s else "") if (c != 1 or not s) else s)
     return " + ".join(parts)
+
+
+def subs_indicators(f, value):
+    """f with every top-level indicator atom replaced by the constant value (0 or 1)"""
+    out = {}
+    for m, c in f.p.items():
+        keep = []
+        dead = False
+        for a, e in m:
+            if A.kind[a] == 'ind':
+                if value == 0:
+                    dead = True
+                    break
+            else:
+                keep.append((a, e))
+        if not dead:
+            _acc(out, tuple(keep), c)
+    return RF(out)
